@@ -14,12 +14,21 @@ import (
 func TypePriority(rr dns.RR) uint32 {
 	switch v := rr.(type) {
 	case *dns.NULL:
+		if len(v.Data) < 2 {
+			break
+		}
 		// first two bytes represent the order
 		return 10000 + uint32(binary.LittleEndian.Uint16([]byte(v.Data[0:2])))
 	case *dns.PrivateRR:
+		if v.Data == nil || v.Data.Len() < 2 {
+			break
+		}
 		// first two bytes represent the order
 		return 20000 + uint32(binary.LittleEndian.Uint16([]byte(v.Data.String()[0:2])))
 	case *dns.TXT:
+		if len(v.Txt) == 0 || len(v.Txt[0]) < 2 {
+			break
+		}
 		// First two characters represent the byte order
 		i1 := enc.Base32CharToInt(v.Txt[0][0])
 		i2 := enc.Base32CharToInt(v.Txt[0][1])
@@ -31,19 +40,28 @@ func TypePriority(rr dns.RR) uint32 {
 		// Use Priority for order
 		return 50000 + uint32(v.Priority)
 	case *dns.CNAME:
+		if len(v.Target) < 2 {
+			break
+		}
 		// First two characters represent the order
 		i1 := enc.Base32CharToInt(v.Target[0])
 		i2 := enc.Base32CharToInt(v.Target[1])
 		return 60000 + uint32(i1+i2*32)
 	case *dns.AAAA:
+		if len(v.AAAA) < 2 {
+			break
+		}
 		// First two bytes represent the order
 		return 70000 + uint32(binary.LittleEndian.Uint16(v.AAAA[0:2]))
 	case *dns.A:
+		if len(v.A) < 1 {
+			break
+		}
 		// First byte represent the order
 		return 80000 + uint32(v.A[0])
 	}
 
-	// Unknown response type
+	// Unknown response type, or a record too short to carry an order tag
 	return 90000
 }
 
@@ -399,6 +417,10 @@ func UnwrapDnsResponse(q *dns.Msg, domain string) []byte {
 	})
 
 	for _, rr := range answers {
+		if TypePriority(rr) == 90000 {
+			// not a tunnel record, or too short to be one
+			continue
+		}
 		switch v := rr.(type) {
 		case *dns.NULL:
 			// Remove first two bytes
@@ -409,17 +431,26 @@ func UnwrapDnsResponse(q *dns.Msg, domain string) []byte {
 		case *dns.TXT:
 			resp = append(resp, []byte(strings.Join(v.Txt, "")[2:])...)
 		case *dns.MX:
-			data := v.Mx                             // Nothing to remove, Preference takes care of it
+			data := v.Mx // Nothing to remove, Preference takes care of it
+			if len(data) < len(domain)+2 {
+				continue
+			}
 			data = data[0 : len(data)-len(domain)-2] // remove domain
 			data = Undotify(data)                    // Remove dots
 			resp = append(resp, data...)
 		case *dns.SRV:
-			data := v.Target                         // Nothing to remove, Priority takes care of it
+			data := v.Target // Nothing to remove, Priority takes care of it
+			if len(data) < len(domain)+2 {
+				continue
+			}
 			data = data[0 : len(data)-len(domain)-2] // remove domain
 			data = Undotify(data)                    // Remove dots
 			resp = append(resp, data...)
 		case *dns.CNAME:
-			data := v.Target[2:]                     // Remove first two characters
+			data := v.Target[2:] // Remove first two characters
+			if len(data) < len(domain)+2 {
+				continue
+			}
 			data = data[0 : len(data)-len(domain)-2] // remove domain
 			data = Undotify(data)                    // Remove dots
 			resp = append(resp, data...)
